@@ -51,17 +51,20 @@ func (db *DB) Merge() error {
 
 	// 由于采用操作临时目录方式, 故允许提前释放锁
 	db.mu.Unlock()
+	verifPoint("merge.started", nonMergeFileId)
 
 	// 获取 merge 临时目录路径
 	mergePath := db.mergePath()
 	// 如果存在上次 merge 的残留目录, 将其删除
 	if _, err := os.Stat(mergePath); err == nil {
+		verifPoint("merge.rmold", 0)
 		if err := os.RemoveAll(mergePath); err != nil {
 			return err
 		}
 	}
 
 	// 新建 merge 临时目录
+	verifPoint("merge.mkdir", 0)
 	if err := os.MkdirAll(mergePath, os.ModePerm); err != nil {
 		return err
 	}
@@ -101,10 +104,12 @@ func (db *DB) Merge() error {
 				}
 				return err
 			}
+			verifPoint("merge.scan", dataFile.ID)
 			// 比较内存中索引的最新数据, 判断是否为有效数据
 			pos := db.index.Get(logRecord.Key)
 			if pos != nil && pos.Fid == dataFile.ID &&
 				pos.Offset == logRecordPos.Offset && pos.BlockID == logRecordPos.BlockID {
+				verifPoint("merge.rewrite", dataFile.ID)
 				// 将数据重写到 merge 临时目录中
 				pos, err := mergeDB.appendLogRecord(logRecord)
 				if err != nil {
@@ -118,6 +123,7 @@ func (db *DB) Merge() error {
 		}
 	}
 
+	verifPoint("merge.scanned", 0)
 	// 将重写的数据文件和 hint 文件持久化
 	if err := hintFile.Close(); err != nil {
 		return err
@@ -141,6 +147,7 @@ func (db *DB) Merge() error {
 	if err := mergeFinishedFile.Close(); err != nil {
 		return err
 	}
+	verifPoint("merge.done", nonMergeFileId)
 
 	return nil
 }
@@ -197,6 +204,7 @@ func (db *DB) loadMergeFiles() (uint32, error) {
 	}
 
 	defer func() {
+		verifPoint("adopt.rmdir", mergeID)
 		// 加载完成后删除 merge 目录
 		_ = os.RemoveAll(mergePath)
 	}()
@@ -207,6 +215,7 @@ func (db *DB) loadMergeFiles() (uint32, error) {
 		destName := datafile.GetFileName(db.options.DirPath, fileID, datafile.DataFileSuffix)
 		var exist bool
 		if _, err := os.Stat(destName); err == nil {
+			verifPoint("adopt.remove", fileID)
 			if err = os.Remove(destName); err != nil {
 				return 0, err
 			}
@@ -221,6 +230,7 @@ func (db *DB) loadMergeFiles() (uint32, error) {
 			}
 			return 0, err
 		}
+		verifPoint("adopt.rename", fileID)
 		if err := os.Rename(srcFile, destName); err != nil {
 			return 0, err
 		}
@@ -232,6 +242,7 @@ func (db *DB) loadMergeFiles() (uint32, error) {
 	if _, err := os.Stat(srcHintFile); err != nil {
 		return 0, err
 	}
+	verifPoint("adopt.hint", mergeID)
 	if err := os.Rename(srcHintFile, destHintFile); err != nil {
 		return 0, err
 	}
